@@ -273,3 +273,5 @@ REG.contract(
     ensures={"render_impl_called_once_with_the_same_arguments_and_its_result_returned": _render_post},
     xensures={"Any": {"the_exception_of_render_impl_itself_propagates": lambda c: z3.BoolVal("impl_exc" in c.ghost and c["raised"].obj is c.ghost["impl_exc"].obj)}},
 )
+
+import contracts.c06c  # noqa: E402,F401  (on_component_rendered: the release callback)
